@@ -86,6 +86,24 @@ CLAIMED = {
        "(n=12, m=5, float64). Numbers of priors / added losses are enumerated (0..3 / 0..2); batch shape () in the proof tier. "
        "TrilNaturalVariationalDistribution is not held to the one-step claim (non-linear re-parameterisation of the natural matrix).",
   technique="contract-based deductive verification: AST-extracted real functions, modular callee contracts (stubs), z3"),
+ "C10": dict(
+  category="other",
+  text="Proof tier (counted): the real MultivariateNormal methods are executed symbolically on distributions with symbolic event size, "
+       "batch sizes, scalars, slice bounds and index-tensor contents, against the abstract view (Mean, Cov): log_prob on the fast path "
+       "equals -1/2 (d^T S^-1 d + log|S| + n log 2pi) for nine distribution/value broadcast patterns (expand and repeat branches, value "
+       "event size 1 included); variance / stddev / confidence_region; + - * / by scalars, sums of MVNs, add_jitter, expand, unsqueeze; "
+       "d[idx] = (mean[idx], marginal covariance of the selected components, exact shape) for every tuple of index kinds at batch rank <= 2 "
+       "via coordinate tensors; rsample(base_samples=e) = mean + L e; kl_mvn_mvn assembly; and the representation invariant 'a cached "
+       "scale-tril is the Cholesky factor of the carried covariance' is preserved by indexing / expand / unsqueeze starting from the state in "
+       "which the factor is already cached. Refutations of matrix-functional obligations are found by instantiating 1x1 / 2x2 matrices and "
+       "replayed on the real code. Bounded tier (not counted): representations x fast/Cholesky paths, exhaustive small index expressions, "
+       "sample moments, KL closed form.",
+  design_ref="DESIGN.md section 5, C10",
+  note="Trusted: inv_quad_logdet / logdet / cholesky / root_decomposition as exact functionals of the dense matrix (CG/Lanczos treated as "
+       "exact), torch indexing/view/repeat/expand; the column split + trace-cyclicity lemma that turns the computed quadratic form into "
+       "tr(Sq^-1 Sp) + d^T Sq^-1 d is cited; the Cholesky log_prob path delegates to torch (assumed); precondition: a batch index tensor "
+       "that becomes the event dimension selects distinct elements; batch ranks enumerated.",
+  technique="contract-based deductive verification: AST-extracted real functions, elementwise tensor domain + uninterpreted matrix functionals, z3; refutation by 2x2 instantiation"),
 }
 REASON_NOT_BUILT = "contracts for this property are not built yet in this revision (see DESIGN.md section 9 build order); not claimed until its obligations are discharged by the checker"
 
